@@ -109,6 +109,8 @@ def _fold_local(node: ast.AST, env: Dict[str, Any]) -> Any:
 class EnumInfo:
     members: Dict[str, Any]  # name -> folded value (tuple or scalar)
     attrs: Dict[str, Any]  # property name -> tuple index, or "whole"
+    resolver: Any = None   # (member, attr) -> value, by interpreting __new__ and the property (set by Program; used when
+                           # the attribute is not a plain copy of one constructor argument)
 
     def attr(self, member: str, attr: str) -> Any:
         if attr not in self.attrs:
@@ -123,6 +125,8 @@ class EnumInfo:
             vals = v if isinstance(v, tuple) else (v,)
             return _fold_local(node, dict(zip(params, vals)))
         if isinstance(idx, tuple):
+            if self.resolver is not None:
+                return self.resolver(member, attr)
             raise AnalysisError(f"enum attribute {attr} is computed in a way the model does not fold ({idx[0]})")
         return v[idx]
 
@@ -526,6 +530,7 @@ class Program:
         for ci in pending:
             if ci.enum is None:
                 raise AnalysisError(f"cannot fold enum {ci.key}")
+            ci.enum.resolver = (lambda member, attr, _ci=ci: self._enum_attr_by_interpretation(_ci, member, attr))
 
     def _enum_info(self, ci: ClassInfo) -> EnumInfo:
         members: Dict[str, Any] = {}
@@ -616,6 +621,21 @@ class Program:
         for pname, src in prop_alias.items():
             attrs[pname] = attrs[src] if src is not None and src in attrs else ("opaque", pname)
         return EnumInfo(members, attrs)
+
+    def _enum_attr_by_interpretation(self, ci: "ClassInfo", member: str, attr: str) -> Any:
+        """Value of a member attribute that is not a plain copy of a constructor argument: the member is built by
+        interpreting the enum's __new__ / __init__ on the member's arguments and the property is interpreted on it."""
+        memo = self.__dict__.setdefault("_enum_interp_memo", {})
+        k = (ci.key, member, attr)
+        if k not in memo:
+            from .interp import Interp
+            I = self.__dict__.get("_enum_interp")
+            if I is None:
+                I = self.__dict__["_enum_interp"] = Interp(self)
+            memo[k] = I.enum_member_attr(ci, member, attr)
+        if isinstance(memo[k], AnalysisError):
+            raise memo[k]
+        return memo[k]
 
     # ------------------------------------------------------------------
     # constant folder (module-level constant expressions only)
